@@ -479,7 +479,13 @@ func (s *Store) pushFile(target string, expected ocispec.Descriptor, content io.
 		return fmt.Errorf("failed to create file %s: %w", target, err)
 	}
 
-	return s.saveFile(fp, expected, content)
+	if err := s.saveFile(fp, expected, content); err != nil {
+		// do not leave a partially written file behind: with DisableOverwrite
+		// it would make a retry of the same push fail
+		os.Remove(target)
+		return err
+	}
+	return nil
 }
 
 // pushDir saves content matching the descriptor to the target directory.
